@@ -13,30 +13,37 @@ from harness.common import Ck, coq_list, parse_coq_N_list
 from translate import c05_sites
 
 MANIFEST = dict(
-    technique='Rocq proof (Flocq binary64 model of Python float % 360.0: range theorem for the double modulo over all finite doubles; '
-              'exact dyadic model of format_float: shape/value/error theorems; frame theorem for frozen values) + ast site census '
-              '+ vm_compute bit-exact correspondence + history search on real objects',
-    text='Theorems in Props/C05.v: for EVERY finite binary64 x the executable Flocq model of Python\'s x % 360.0 % 360.0 is finite and in '
-         '[0,360) while a single % reaches exactly 360.0 (witness -1e-14); hence, if every store to _pitch/_yaw/_roll is a double modulo, a '
-         'copy of an angle slot or the literal 0.0, all angle slots stay in [0,360) after every history of stores with finite operands. '
-         'For format_float on every dyadic rational: the text is -?digits(.1-6 digits) with no trailing zero, no exponent, never "-0" '
-         '(given the "-0" repair), denotes exactly round-half-even(|x|*1e6)/1e6, i.e. is within 5e-7 of x. Frame theorem: with a mutation '
-         'census in which no method reachable with a frozen receiver writes its receiver, an argument, or the result of copy() of either, '
-         'frozen registers never change and non-receiver registers (sources/results of copy, freeze, thaw, pickle) are independent. '
-         'The premises (store-site list, format_float pipeline, mutation census incl. exec templates) are regenerated from math.py on every '
-         'run and kernel-checked; pymod360 is compared bit-exactly with Python % and format6 as strings with format_float; which objects an '
-         'operation changed is compared with the model frame on random histories over Vec/Angle/Matrix and their frozen twins.',
-    note='Trusted: Coq kernel + vm_compute, Flocq, translate/c05_sites.py, the hand models Num/Mod360.v and Num/Dec6.v (tied by '
-         'bit-exact/string-exact differential runs). Axioms: the classical real-number axioms of the Coq Reals library (through Flocq) for '
-         'part (a) only; parts (b), (c) are axiom-free. Assumptions visible in the theorems: operands of the modulo are finite (an overflowing '
-         'product such as Angle(359,0,0)*1e308 is outside), printf("%.6f") and float() are correctly rounded. The float VALUES produced by '
-         'rotations (sin/cos/atan2) are not modelled, only which objects are written; parse_vec_str/from_str and __format__ with a user '
-         'format spec are searched, not modelled. FrozenMatrix @ x (defect #5, repaired by the C04 change) is carved out of the census '
-         'obligation and reported by the search as a known finding. The Cython twin _math.pyx cannot be built here and is not verified.',
+    technique='Rocq proof (Flocq binary64 model of Python float % 360.0: range + identity-on-range theorems over all finite doubles; exact dyadic '
+              'model of format_float: shape/value/error theorems and the exact "-0" carve-out; model of parse_vec_str with the round-trip theorem '
+              'parse(format) within 5e-7 for every bracket/whitespace wrapping; frame + heap/alias theorems for frozen values and copies) + '
+              'fail-closed ast census of math.py (store sites, angle creations, format/parse pipelines, mutation events, result kinds of every '
+              'public method) + vm_compute correspondences (bit-exact / string-exact / parse results / frames / result aliasing) + history search',
+    text='Theorems in Props/C05.v. (a) For EVERY finite binary64 x the executable Flocq model of x % 360.0 % 360.0 is finite and in [0,360) (a '
+         'single % reaches exactly 360.0, witness -1e-14) and is the identity on [0,360); hence, if every store to _pitch/_yaw/_roll is a double '
+         'modulo, a copy of an angle slot or 0.0, all angle slots stay in [0,360) after every history of stores with finite operands. The census '
+         'also lists every expression that creates an Angle (constructor / __new__ handed to _to_angle / __new__ with all three slots stored on '
+         'every path), none unclassified. (b) Frame theorem: with a mutation census in which no method reachable with a frozen receiver writes '
+         'its receiver, an argument or a copy() of either, frozen objects never change and non-receivers are never written. Copy theorem on a '
+         'heap with aliasing: for a result-kind table in which copy/__copy__/__deepcopy__/__reduce__/freeze/thaw return a NEW object or (frozen '
+         'classes only) the receiver, and a census in which they write nothing, operating on the copy never changes the source and vice versa, '
+         'for every later history. (c) format_float on every dyadic: text is -?digits(.1-6 digits), no trailing zero, no exponent; "-0" is '
+         'printed IF AND ONLY IF the input is in the carved-out class (no repair in the source, negative, non-zero, |x|*1e6 <= 1/2); value = '
+         'round-half-even(|x|*1e6)/1e6, within 5e-7 of x. parse_vec_str as read from the source (strip, bracket sets, split, float) applied to '
+         'three formatted numbers in any documented bracket style with any whitespace returns three decimals each within 5e-7 of its component '
+         '(exact integer statement, carved-out "-0" included); with float() modelled as correctly rounded the double read back is within 5e-7 + '
+         'ulp/2. All generated premises are kernel-checked instance obligations on every run.',
+    note='Trusted: Coq kernel + vm_compute, Flocq, translate/c05_sites.py, the hand models Num/Mod360.v, Num/Dec6.v, Num/VecText.v (tied by '
+         'bit-exact / string-exact / parse-result differential runs; str.isspace() table compared on all 1114112 code points). Axioms: the four '
+         'classical real-number axioms of Coq Reals (through Flocq) for the % 360 theorems and the float() corollary only; frame, copy, format '
+         'and parse theorems are axiom-free. Assumptions: operands of the modulo are finite; printf("%.6f") and float() are correctly rounded '
+         '(float() enters as the definition py_float = round-to-nearest-even); only plain-decimal fields are predicted by the parse model (other '
+         'spellings accepted by float() - exponents, inf, underscores - get no prediction); only the public API is used. Not modelled: float '
+         'VALUES of rotations (sin/cos/atan2), equality of a copy with its source (searched), __format__ with a user spec, the Cython twin. '
+         'Known finding kept: format_float prints "-0" on the carved-out class (suite pins it); a "-0" outside that class has its own key.',
 )
 
 IMPORTS = ['Coq.ZArith.ZArith', 'Coq.NArith.NArith', 'Coq.Lists.List', 'Coq.Strings.String', 'SV.Num.Mod360', 'SV.Num.AngleSites',
-           'SV.Num.Dec6', 'SV.SM.FrozenOps', 'SV.Gen.AngleSites_gen']
+           'SV.Num.Dec6', 'SV.Num.Dec6CarveProofs', 'SV.Num.VecText', 'SV.SM.FrozenOps', 'SV.SM.FrozenCopy', 'SV.Gen.AngleSites_gen']
 PRE = '''Import ListNotations.
 Fixpoint bad_idx {A} (f : A -> bool) (n : N) (l : list A) : list N := match l with [] => [] | x :: r => (if f x then [] else [n]) ++ bad_idx f (n + 1)%N r end.
 Definition t3_eqb (a b : Z * Z * Z) : bool := let '(a1, a2, a3) := a in let '(b1, b2, b3) := b in (Z.eqb a1 b1 && Z.eqb a2 b2 && Z.eqb a3 b3)%bool.
@@ -94,7 +101,7 @@ def gen_double(rng: random.Random) -> tuple[str, float]:
 
 
 def corr_mod(ck: Ck) -> None:
-    n = ck.budget(1500, 8000)
+    n = ck.budget(1000, 8000)
     cases = []
     for i in range(n):
         kind, x = ('special', SPECIAL[i]) if i < len(SPECIAL) else gen_double(ck.rng)
@@ -158,7 +165,7 @@ def gen_fmt_double(rng: random.Random) -> tuple[str, float]:
 
 def corr_format(ck: Ck) -> None:
     from srctools.math import format_float
-    n = ck.budget(1200, 6000)
+    n = ck.budget(1000, 6000)
     cases = []
     for i in range(n):
         kind, x = ('special', FMT_SPECIAL[i]) if i < len(FMT_SPECIAL) else gen_fmt_double(ck.rng)
@@ -188,13 +195,150 @@ def corr_format(ck: Ck) -> None:
         ck.extra['format6_disagreement'] = [{'x': cases[i][0].hex(), 'impl': cases[i][2]} for i in bad[:5]]
 
 
+# ------------------------------------------------------------------------------------------------ parse_vec_str
+WS_CHOICES = [' ', ' ', ' ', '  ', '\t', '\n', ' \r\n', '\x0b\x0c', '\x1c', '\x1f ', '\x85', '\xa0', '\u1680', '\u2003', '\u2028', '\u202f', '\u205f', '\u3000']
+NOT_WS = ['\x1b', '\u200b', '\u180e', '\ufeff', '\x00', '_']        # look like spaces, are not (str.isspace() is False)
+EXOTIC = ['1e5', '+3', 'inf', '-inf', 'nan', '1_0', '.5', '5.', '0x10', '\uff11\uff12', '1,5', '--1', '1-', '1..2', '-', '.', '-.5', '1e', 'e1', '१२']
+LITERALS = ['0', '-0', '007', '-000.5', '1.50', '0.1234567891234', '123456789012345678901234567890', '3.000000', '0.0000001', '9' * 40 + '.' + '9' * 40,
+            '-0.000', '360', '359.999999', '0.5', '2.5e0'[:3], '1.0000005', '4503599627370497.5', '0.30000000000000004', '179.99999999999997']
+PARSE_CORPUS = ['(1 2 3)', ' <0 -0 5.5> ', '[1 2 3}', '((1 2 3))', '(1 2 3', '1 2 3)', ')1 2 3(', '1 2', '1 2 3 4', '', '   ', '(', ')', '()', '( )', '(1 2 3) )',
+                '1\t2\n3', '1\xa02\u30003', '1\u200b2 3 4', '\x1f(1 2 3)\x1f', '(1 (2) 3)', '1 2 3\x00', '{ 1 2 3 }', '<1.5 -2.25 1e3>', '1 2 nan', '(-0 -0 -0)',
+                '5 6 7 ', '[ 0.000001 359.999999 0.5 ]', '1  2   3', '(1 2 3]', '1_0 2 3', '+1 2 3', '1. 2 3', '.5 2 3']
+
+
+def gen_parse_case(rng: random.Random) -> tuple[str, str]:
+    from srctools.math import format_float
+    r = rng.random()
+    def num():
+        q = rng.random()
+        if q < 0.6:
+            return format_float(gen_fmt_double(rng)[1])
+        if q < 0.85:
+            return rng.choice(LITERALS)
+        if q < 0.93:
+            return ('-' if rng.random() < 0.3 else '') + str(rng.randint(0, 10 ** rng.randint(1, 25))) + \
+                ('.' + ''.join(rng.choice('0123456789') for _ in range(rng.randint(1, 30))) if rng.random() < 0.7 else '')
+        return rng.choice(EXOTIC)
+    ws = lambda: rng.choice(WS_CHOICES) if rng.random() < 0.85 else rng.choice(NOT_WS)
+    pad = lambda: ''.join(rng.choice(WS_CHOICES) for _ in range(rng.choice([0, 0, 0, 1, 2])))
+    if r < 0.62:
+        kind = 'three'
+        body = num() + ws() + num() + ws() + num()
+    elif r < 0.80:
+        kind = 'count'
+        n = rng.choice([0, 1, 2, 4, 5])
+        body = ' '.join(num() for _ in range(n))
+    else:
+        kind = 'odd'
+        parts = [num(), num(), num()]
+        j = rng.randrange(3)
+        parts[j] = rng.choice(['(', ')', '', '[', '<>']) + parts[j] + rng.choice(['', ')', '>', ']]'])
+        body = ' '.join(parts)
+    op = rng.choice(['', '', '(', '{', '[', '<', '((', ')', '"', '1'])
+    cl = rng.choice(['', '', ')', '}', ']', '>', '))', '(', '"', '0'])
+    return kind, pad() + op + pad() + body + pad() + cl + pad()
+
+
+def expected_float(neg: int, num: int, k: int) -> float | None:
+    from fractions import Fraction
+    try:
+        v = float(Fraction(num, 10 ** k))
+    except OverflowError:
+        return None
+    return -v if neg else v
+
+
+def corr_parse(ck: Ck) -> None:
+    """parse_vec_str on real strings against Num/VecText.v parse_vec over the generated configuration; and the
+    whitespace table of the model against str.isspace() on EVERY code point."""
+    from srctools.math import parse_vec_str
+    n = ck.budget(500, 4000)
+    cases: list[tuple[str, str]] = [('corpus', t) for t in PARSE_CORPUS]
+    while len(cases) < n:
+        cases.append(gen_parse_case(ck.rng))
+    pre = PRE + ('Definition enc_dec (o : option decimal) : list N := match o with None => [0%N] | Some (neg, num, k) => [1%N; (if neg then 1 else 0)%N; num; N.of_nat k] end.\n'
+                 'Definition enc_parsed (p : parsed) : list N := match p with PDefaults => [0%N] | PFields a b c => (1%N :: enc_dec a ++ enc_dec b ++ enc_dec c) end.\n')
+    model: list[list[int]] = []
+    spaces: list[int] | None = None
+    for lo in range(0, len(cases), 500):
+        part = cases[lo:lo + 500]
+        lit = coq_list('[' + ';'.join(str(ord(c)) for c in t) + ']%N' for _, t in part)
+        exprs = [f'map (fun s => enc_parsed (parse_vec parse_vec_cfg s)) ({lit} : list (list N))']
+        if lo == 0:
+            exprs.append('rev (snd (N.iter 70000 (fun p : N * list N => (fst p + 1, if py_space (fst p) then fst p :: snd p else snd p))%N (0%N, [])))')
+        vals = ck.coq_eval(IMPORTS, exprs, name='parsevec', preamble=pre)
+        if vals is None:
+            ck.obligation('correspondence:parse_vec_str', False, 'model could not be evaluated')
+            ck.tie_broken.append('correspondence parse_vec_str: model evaluation failed')
+            return
+        from harness.common import parse_coq_nested
+        model += parse_coq_nested(vals[0])
+        if lo == 0:
+            spaces = parse_coq_N_list(vals[1])
+    py_spaces = [c for c in range(0x110000) if chr(c).isspace()]
+    ck.obligation('correspondence:py_space_table', spaces == py_spaces,
+                  f'Num/VecText.v py_space vs str.isspace() on all 1114112 code points: model {len(spaces or [])} whitespace characters, Python {len(py_spaces)}')
+    if spaces != py_spaces:
+        ck.tie_broken.append('py_space table differs from str.isspace()')
+    bad: list[dict] = []
+    D = (object(), object(), object())
+    for (kind, t), m in zip(cases, model):
+        ck.count('parse_cases')
+        ck.hist('parse_input_class', kind)
+        got = parse_vec_str(t, *D)
+        is_default = got[0] is D[0] and got[1] is D[1] and got[2] is D[2]
+        if m == [0]:
+            ck.hist('parse_model_result', 'defaults')
+            if not is_default:
+                bad.append({'text': t, 'model': 'defaults', 'impl': repr(got)})
+            continue
+        fields = []
+        rest = m[1:]
+        while rest:
+            if rest[0] == 0:
+                fields.append(None); rest = rest[1:]
+            else:
+                fields.append(tuple(rest[1:4])); rest = rest[4:]
+        assert len(fields) == 3, m
+        ck.hist('parse_model_result', 'fields:' + ''.join('d' if f else '?' for f in fields))
+        if all(fields):
+            ck.seen(('parse', t))
+        if is_default:
+            if all(fields) and all(expected_float(*f) is not None for f in fields):
+                bad.append({'text': t, 'model': fields, 'impl': 'defaults'})
+            continue
+        for f, g in zip(fields, got):
+            if f is None:
+                continue
+            e = expected_float(*f)
+            if e is None:
+                continue
+            if not (isinstance(g, float) and g == e and math.copysign(1.0, g) == math.copysign(1.0, e)):
+                bad.append({'text': t, 'model': fields, 'impl': repr(got), 'expected': e})
+                break
+    ck.sample({'parse_vec_str text': cases[1][1], 'model (1=fields; per field 1 neg num k)': model[1]})
+    ck.obligation('correspondence:parse_vec_str', not bad,
+                  f'{len(cases)} strings: Num/VecText.v parse_vec over the generated configuration vs srctools.math.parse_vec_str '
+                  f'(defaults / three fields / each plain decimal field == correctly rounded float of the exact decimal): {len(bad)} disagreements')
+    if bad:
+        ck.tie_broken.append('correspondence parse_vec_str (Num/VecText.v vs parse_vec_str)')
+        ck.extra['parse_vec_disagreement'] = bad[:5]
+
+
 PLAIN = re.compile(r'-?[0-9]+(\.[0-9]{1,6})?\Z')
 
 
-def text_problem(s: str) -> str | None:
-    """The property's demands on one printed number."""
+def in_carve_out(x: float) -> bool:
+    """The carved-out class of c05_format6_shape for the pinned pipeline (Props/C05.v c05_carved_pinned_iff), evaluated
+    exactly: x strictly negative, not zero, and |x|*10^6 <= 1/2."""
+    from fractions import Fraction
+    return x < 0 and Fraction(-x) * 10 ** 6 * 2 <= 1
+
+
+def text_problem(s: str, x: float | None = None) -> str | None:
+    """The property's demands on one printed number.  A '-0' outside the known carve-out is a different failure."""
     if s == '-0':
-        return 'negative-zero'
+        return 'negative-zero' if x is None or in_carve_out(x) else 'negative-zero-outside-carve-out'
     if not PLAIN.match(s):
         return 'not-plain'
     return None
@@ -207,7 +351,7 @@ def circ(a: float, b: float) -> float:
 
 def search_text(ck: Ck) -> None:
     from srctools.math import Angle, FrozenAngle, FrozenVec, Vec, format_float, parse_vec_str
-    n = ck.budget(2500, 20000)
+    n = ck.budget(6000, 30000)
     found: dict[str, tuple] = {}
     for i in range(n):
         kind, x = ('special', FMT_SPECIAL[i]) if i < len(FMT_SPECIAL) else gen_fmt_double(ck.rng)
@@ -215,9 +359,9 @@ def search_text(ck: Ck) -> None:
             continue
         ck.count('text_cases')
         s = format_float(x)
-        p = text_problem(s)
+        p = text_problem(s, x)
         if p:
-            key = {'negative-zero': 'format-float-negative-zero'}.get(p, 'format-float-' + p)
+            key = 'format-float-' + p
             if key not in found or abs(x) > abs(found[key][0]):
                 found[key] = (x, f'format_float({x!r}) == {s!r}', {'call': 'format_float', 'x': x.hex()})
             continue
@@ -230,9 +374,10 @@ def search_text(ck: Ck) -> None:
             v = cls(x, y, z)
             txt = str(v)
             parts = txt.split(' ')
-            probs = [text_problem(t) for t in parts]
+            probs = [text_problem(t, c) for t, c in zip(parts, (x, y, z))]
             if len(parts) != 3 or any(probs):
-                key = 'vec-str-negative-zero' if 'negative-zero' in probs else 'vec-str-not-plain'
+                key = 'vec-str-negative-zero-outside-carve-out' if 'negative-zero-outside-carve-out' in probs else \
+                    'vec-str-negative-zero' if 'negative-zero' in probs else 'vec-str-not-plain'
                 found.setdefault(key, (x, f'str({v!r}) == {txt!r}', {'call': 'str', 'cls': cls.__name__, 'xyz': [x.hex(), y.hex(), z.hex()]}))
                 continue
             for wrap in ('{}', '({})', '[{}]', ' <{}> ', '{{{}}}'):
@@ -247,9 +392,9 @@ def search_text(ck: Ck) -> None:
                 a = cls(x, y, z)
                 txt = str(a)
                 parts = txt.split(' ')
-                probs = [text_problem(t) for t in parts]
+                probs = [text_problem(t, c) for t, c in zip(parts, (a.pitch, a.yaw, a.roll))]
                 if len(parts) != 3 or any(probs):
-                    key = 'angle-str-negative-zero' if 'negative-zero' in probs else 'angle-str-not-plain'
+                    key = 'angle-str-negative-zero' if any(p and p.startswith('negative-zero') for p in probs) else 'angle-str-not-plain'
                     found.setdefault(key, (x, f'str({a!r}) == {txt!r}', {'call': 'str', 'cls': cls.__name__, 'xyz': [x.hex(), y.hex(), z.hex()]}))
                     continue
                 back = cls.from_str(txt, 77, 77, 77)
@@ -510,7 +655,11 @@ COPY_OPS = {'copy', 'copy_copy', 'deepcopy', 'pickle', 'freeze', 'thaw', 'ctor_s
 
 
 def finite_obj(o) -> bool:
-    return all(isinstance(getattr(o, s), float) and math.isfinite(getattr(o, s)) for s in slots_of(o))
+    return all(isinstance(getattr(o, s, None), float) and math.isfinite(getattr(o, s)) for s in slots_of(o))
+
+
+def missing_slots(o) -> list[str]:
+    return [s for s in slots_of(o) if not hasattr(o, s)]
 
 
 def run_history(hist: list[tuple]):
@@ -536,9 +685,19 @@ def run_history(hist: list[tuple]):
         for o in out:
             if isinstance(o, tuple) or o is NotImplemented or o is None:
                 continue
+            if (isvec(o) or isang(o) or ismat(o)) and missing_slots(o):          # an object escaped without all of its slots written
+                problems.append((f'{"angle" if isang(o) else type(o).__name__.lower()}-slot-missing-after-{op[0]}',
+                                 f'{type(o).__name__} returned by {op[0]} has no {missing_slots(o)}', step))
+                continue
             if not any(o is r for r in regs) and finite_obj(o):      # non-finite results are outside the property
                 regs.append(o)
-        frames.append({'op': op[0], 'meth': meth, 'recv': recv, 'args': args, 'changed': changed, 'classes': [type(o).__name__ for o in regs[:nregs]]})
+        res_is = None
+        if out and not isinstance(out[0], tuple):
+            src_i = recv if recv is not None else (args[0] if args else None)
+            if src_i is not None and src_i < nregs:
+                res_is = 'same' if out[0] is regs[src_i] else 'new'
+        frames.append({'op': op[0], 'meth': meth, 'recv': recv, 'args': args, 'changed': changed, 'classes': [type(o).__name__ for o in regs[:nregs]],
+                       'res_is': res_is, 'res_cls': type(out[0]).__name__ if out else None})
         # (b) frozen values never change; nothing but a mutable receiver is written
         for i in changed:
             cls = before[i][0]
@@ -548,6 +707,8 @@ def run_history(hist: list[tuple]):
                 problems.append((key, f'{cls} register {i} changed from {before[i][1]} to {after[i][1]} by {op[0]}', step))
             elif i != recv:
                 problems.append((f'non-receiver-{cls}-changed-by-{op[0]}', f'{cls} register {i} (not the receiver) changed by {op[0]}', step))
+            elif op[0] in COPY_OPS:
+                problems.append((f'source-changed-by-{op[0]}-{cls}', f'{cls} register {i} changed from {before[i][1]} to {after[i][1]} by {op[0]} of itself', step))
         # copies are equal to and distinct from their (mutable) source
         if op[0] in COPY_OPS and out and op[1] is not None and op[1] < nregs:
             src, dst = regs[op[1]], out[0]
@@ -609,7 +770,7 @@ def shrink(hist, pred):
 
 
 def search_histories(ck: Ck) -> list[dict]:
-    n = ck.budget(1200, 8000)
+    n = ck.budget(2000, 10000)
     found: dict[str, tuple] = {}
     all_frames: list[dict] = []
     for i in range(n):
@@ -652,14 +813,14 @@ def search_histories(ck: Ck) -> list[dict]:
 def corr_frames(ck: Ck, frames: list[dict]) -> None:
     """Which registers did an operation change on the implementation?  Must be allowed by the model's frame
     (may_write over the generated mutation census)."""
-    frames = [f for f in frames if f['recv'] is not None][:ck.budget(1500, 6000)]
+    frames = [f for f in frames if f['recv'] is not None][:ck.budget(1000, 6000)]
     if not frames:
         ck.obligation('correspondence:frames', False, 'no frames recorded')
         return
     s = lambda x: '"' + x + '"'
     bad: list[int] = []
-    for lo in range(0, len(frames), 400):
-        part = frames[lo:lo + 400]
+    for lo in range(0, len(frames), 500):
+        part = frames[lo:lo + 500]
         lit = coq_list('(%s, %s, %d, %s, %s)' % (coq_list(f'({s(c)}, 0)' for c in f['classes']), s(f['meth']), f['recv'],
                                                  coq_list(str(i) for i in f['args']), coq_list(str(i) for i in f['changed'])) for f in part)
         expr = ('bad_idx (fun c : list (string * nat) * string * nat * list nat * list nat => let \'(st, m, r, ar, ch) := c in '
@@ -679,12 +840,43 @@ def corr_frames(ck: Ck, frames: list[dict]) -> None:
         ck.extra['frame_disagreement'] = [frames[i] for i in bad[:5]]
 
 
+def corr_results(ck: Ck, frames: list[dict], side: dict) -> None:
+    """Is the result of a copy-like call / constructor call the source object itself or a new one?  Compared with the
+    generated table result_kinds (SM/FrozenCopy.v kinds): RFresh = always new, RSelf = always the receiver,
+    RArgFrozen = the argument itself exactly when it already is of that frozen class."""
+    kinds = {(c, m): k for c, m, k in side.get('result_kinds', [])}
+    bad = []
+    n = 0
+    for f in frames:
+        if f['op'] not in COPY_OPS or f['res_is'] is None:
+            continue
+        if f['recv'] is not None:
+            cls = f['classes'][f['recv']]
+            k = kinds.get((cls, f['meth']))
+            want = {'RFresh': 'new', 'RSelf': 'same'}.get(k)
+        else:
+            cls = f['res_cls']
+            k = kinds.get((cls, '__new__')) or kinds.get((cls, '__init__'))
+            src_cls = f['classes'][f['args'][0]]
+            want = {'RFresh': 'new', 'RArgFrozen': 'same' if src_cls == cls else 'new'}.get(k)
+        n += 1
+        ck.count('result_cases')
+        ck.hist('result_kind_checked', f'{cls}.{f["meth"]}:{k}')
+        if want != f['res_is']:
+            bad.append({'class': cls, 'method': f['meth'], 'model_kind': k, 'implementation': f['res_is']})
+    ck.obligation('correspondence:results', n > 0 and not bad,
+                  f'{n} copy-like / constructor calls: result is the source object or a new one vs Gen result_kinds: {len(bad)} disagreements')
+    if bad or not n:
+        ck.tie_broken.append('correspondence results (result_kinds vs real objects)')
+        ck.extra['result_disagreement'] = bad[:5]
+
+
 # ------------------------------------------------------------------------------------------------ direct oracles
 def search_to_angle(ck: Ck) -> None:
     """Targeted oracle for the conversion matrix -> angle: rotations by tiny negative angles about each axis,
     alone and composed, through every public route that ends in _to_angle."""
     from srctools.math import Angle, FrozenAngle, FrozenMatrix, Matrix, Vec
-    n = ck.budget(1500, 30000)
+    n = ck.budget(6000, 40000)
     found: dict[str, tuple] = {}
     for i in range(n):
         rng = ck.rng
@@ -715,6 +907,9 @@ def search_to_angle(ck: Ck) -> None:
         ck.hist('to_angle_route', route)
         if any(abs(x) < 1e-9 and x != 0 for x in v):
             ck.seen(('toang', route, tuple(x.hex() for x in v)))
+        if missing_slots(a):
+            found.setdefault('angle-slot-missing-after-to_angle', (route, v, tuple(missing_slots(a))))
+            continue
         vals = (a.pitch, a.yaw, a.roll)
         if all(math.isfinite(x) for x in vals) and not all(0.0 <= x < 360.0 for x in vals):
             key = 'angle-360-from-matrix-to-angle' if route != 'vec_to_angle' else 'angle-out-of-range-after-vec_to_angle'
@@ -724,14 +919,18 @@ def search_to_angle(ck: Ck) -> None:
         ck.violation(key, f'{route}{tuple(v)!r} gives (pitch, yaw, roll) = {vals!r}', {'route': route, 'values': [x.hex() for x in v]})
 
 
-def fix_axiom_lists(ck: Ck, props_file: str = 'Props/C05.v') -> None:
-    """Ck.theorems() parses only axioms printed as `name : type` on one line; the Reals axioms are printed with the
-    type on the following line.  Re-run Print Assumptions and record every axiom name (helper local to this check)."""
+def theorems_with_axioms(ck: Ck, props_file: str = 'Props/C05.v') -> None:
+    """Same job as Ck.theorems() - one `theorem:<name>` obligation per statement of the Props file with its Print
+    Assumptions result - with a parser that also understands axioms whose type is printed on the following line (the
+    Reals axioms are).  Done once here instead of calling Ck.theorems() and then repairing its axiom lists: Print
+    Assumptions through Flocq/Reals costs ~20 s per pass (helper local to this check)."""
     from harness.common import ROCQ
     names = re.findall(r'^\s*(?:Theorem|Lemma|Corollary)\s+([A-Za-z0-9_\']+)', (ROCQ / props_file).read_text(), re.M)
     body = 'Require Import SV.Props.C05.\n' + ''.join(f'Print Assumptions {n}.\n' for n in names)
     rc, out = ck.coq_scratch(body, 'assumptions_full')
     if rc != 0:
+        ck.obligation(f'assumptions:{props_file}', False, out[-2000:])
+        ck.tie_broken.append(f'Print Assumptions failed for {props_file}')
         return
     blocks: list[list[str]] = []
     for line in out.splitlines():
@@ -743,12 +942,17 @@ def fix_axiom_lists(ck: Ck, props_file: str = 'Props/C05.v') -> None:
             m = re.match(r"([A-Za-z_][A-Za-z0-9_.']*)", line)
             if m:
                 blocks[-1].append(m.group(1))
-    if len(blocks) == len(names):
-        for n, b in zip(names, blocks):
-            ck.axioms[n] = b
-            for o in ck.obligations:
-                if o['name'] == f'theorem:{n}':
-                    o['detail'] = 'Qed; axioms: ' + ('none (closed under the global context)' if not b else ', '.join(b))
+    if len(blocks) != len(names):
+        ck.obligation(f'assumptions:{props_file}', False, f'{len(names)} statements but {len(blocks)} Print Assumptions blocks')
+        ck.tie_broken.append(f'Print Assumptions output not understood for {props_file}')
+        return
+    allowed = {'ClassicalDedekindReals.sig_forall_dec', 'ClassicalDedekindReals.sig_not_dec', 'FunctionalExtensionality.functional_extensionality_dep',
+               'Classical_Prop.classic'}
+    for n, b in zip(names, blocks):
+        ck.axioms[n] = b
+        extra = [a for a in b if a not in allowed]
+        ck.obligation(f'theorem:{n}', not extra, 'Qed; axioms: ' + ('none (closed under the global context)' if not b else ', '.join(b))
+                      + (f' -- NOT ALLOWED: {extra}' if extra else ''))
 
 
 # ------------------------------------------------------------------------------------------------ main
@@ -757,64 +961,97 @@ def run(ck: Ck) -> None:
                'the value, distinct by bit pattern; format: doubles incl. exact ties k/128, tiny values, boundaries, non-trivial = output has a '
                'fraction or a sign; histories: random operation sequences (54 operation kinds) over registers of Vec/Angle/Matrix and frozen '
                'twins, non-trivial = some register changed while a frozen register exists, distinct by full history; to_angle routes: '
-               'non-trivial = a tiny non-zero operand')
-    ck.trusted.append('hand-written models Num/Mod360.v (CPython float_rem on binary64), Num/Dec6.v (printf %.6f + rstrip), '
-                      'SM/FrozenOps.v (frame) - tied by differential runs on every execution; Flocq 4 library')
+               'non-trivial = a tiny non-zero operand; parse: corpus + generated strings (three formatted/literal/exotic numbers, 0-5 fields, '
+               'stray brackets, 18 kinds of Unicode whitespace and look-alikes, all bracket styles incl. wrong ones), non-trivial = the model '
+               'predicts three decimal fields, distinct by text')
+    ck.trusted.append('hand-written models Num/Mod360.v (CPython float_rem on binary64), Num/Dec6.v (printf %.6f + rstrip), Num/VecText.v '
+                      '(str.strip/split, bracket removal, plain-decimal reader), SM/FrozenOps.v + SM/FrozenCopy.v (frame, result aliasing) - '
+                      'tied by differential runs on every execution; translate/c05_sites.py; Flocq 4 library')
     ck.assumptions += ['operands of % 360 are finite doubles (no overflow to inf/nan inside Angle arithmetic)',
-                       'C printf("%.6f") and float() are correctly rounded (IEEE 754 round-half-even)',
+                       'C printf("%.6f") and float() are correctly rounded (IEEE 754 round-half-even); float() of a plain decimal is checked against '
+                       'the exactly rounded Fraction on every parse case',
                        'only the public API is used (no writes to underscore slots, no direct calls of dunder/underscore helpers)']
     ok_t = ck.translate('AngleSites_gen', c05_sites.translate)
     side = ck.extra.get('translated', {}).get('AngleSites_gen', {})
     built = ok_t and ck.build(['Gen/AngleSites_gen.vo', 'Props/C05.vo'])
     if built:
-        ck.theorems('Props/C05.v')
-        fix_axiom_lists(ck)
+        theorems_with_axioms(ck)
         empty = lambda e: f'match {e} with nil => true | _ => false end'
         res = ck.instance_obligations(IMPORTS, {
             'all_angle_store_sites_safe': 'all_sites_safe angle_sites',
             'no_single_modulo_store': empty('sites_of_kind is_single angle_sites'),
             'no_unclassified_angle_store': empty('sites_of_kind is_other angle_sites'),
+            'no_unclassified_angle_creation': 'all_creations_ok angle_creations',
+            'to_angle_stores_all_slots': 'to_angle_stores_all_slots',
+            'angle_init_stores_all_slots': 'angle_init_stores_all_slots',
+            'format_float_pipeline_recognised': 'format_float_recognised',
+            'format_float_exact_zero_has_no_sign': 'zero_sign_ok format_float_cfg',
+            'parse_vec_str_recognised': 'parse_vec_recognised',
+            'parse_vec_str_pipeline_ok': 'pcfg_ok parse_vec_cfg',
+            'parse_vec_str_accepts_documented_brackets': 'accepts_documented_brackets parse_vec_cfg',
+            'parse_vec_str_passes_objects_through': 'parse_passes_objects_through',
+            'from_str_of_vectors_uses_parse_vec_str': 'vec_from_str_uses_parse',
+            'from_str_of_angles_uses_parse_vec_str': 'angle_from_str_uses_parse',
             'format_float_places_is_6': 'N.eqb (places format_float_cfg) 6',
             'format_float_strips_zeros': 'strips format_float_cfg',
             'format_float_pipeline_ok_up_to_negative_zero': 'cfg_base_ok format_float_cfg',
             'str_and_join_use_format_float': 'str_uses_format_float',
-            'mutation_census_ok_except_known_matmul': 'table_ok mut_events carve_matmul',
+            'mutation_census_ok': 'table_ok mut_events no_carve',
+            'copy_results_new_or_frozen_self': 'copy_results_ok result_kinds',
+            'copy_protocol_present_on_all_six_classes': 'copy_methods_present result_kinds',
+            'copy_methods_write_nothing': 'no_copy_events mut_events',
             'no_write_through_unknown_or_aliased_object': 'forallb (fun e : mut_event => match snd (fst e) with Unknown | MaybeAlias | Param => helper (snd (fst (fst e))) | _ => true end) mut_events',
         })
         if not all(res.values()):      # a premise of the theorems no longer holds for today's source: escalate the search
             ck.tie_broken.append('instance obligations failed: ' + ', '.join(k for k, ok in res.items() if not ok))
-        v = ck.coq_eval(IMPORTS, ['table_ok mut_events no_carve', 'bad_events no_carve mut_events'], name='nocarve', preamble='Import ListNotations.')
-        ck.extra['mutation_census_ok_without_carve_out'] = v
-        v = ck.coq_eval(IMPORTS, ['neg_zero_fix format_float_cfg'], name='negzero')
-        ck.extra['format_float_has_negative_zero_repair (carve-out of c05_format6_shape empty when true)'] = v
+        v = ck.coq_eval(IMPORTS, ['bad_events no_carve mut_events', 'bad_results result_kinds', 'bad_creations angle_creations', 'neg_zero_fix format_float_cfg'], name='info', preamble='Import ListNotations.')
+        if v:
+            ck.extra['offending_census_entries'] = {'mut_events': v[0], 'result_kinds': v[1], 'angle_creations': v[2]}
+            ck.extra['format_float_has_negative_zero_repair (carve-out of c05_format6_shape empty when true)'] = v[3]
         corr_mod(ck)
         corr_format(ck)
+        corr_parse(ck)
     frames = search_histories(ck)
     if built:
         corr_frames(ck, frames)
+        corr_results(ck, frames, side)
     search_to_angle(ck)
     search_text(ck)
-    # Failed instance obligations are explained by the concrete input the search exhibits for them.
+    explain_failures(ck)
+
+
+def explain_failures(ck: Ck) -> None:
+    """Failed obligations are explained only by a concrete, replayable violation of the matching kind (a KNOWN '-0'
+    finding explains nothing: it leaves no obligation failing)."""
     keys = {v['key'] for v in ck.violations}
-    if any(k.startswith(('format-float-', 'vec-str-', 'angle-str-')) and not k.endswith('negative-zero') for k in keys) \
-            and any('format_float' in o['detail'] for o in ck.obligations if o['name'].startswith('translate:') and not o['ok']):
-        ck.explain('translate:')       # the translator failed closed on format_float and the search shows the broken output
-    if 'angle-360-from-matrix-to-angle' in keys:
-        ck.explain('instance:all_angle_store_sites_safe')
-        ck.explain('instance:no_single_modulo_store')
-    if any(k.startswith('format-float-') or k.startswith('vec-str-') or k.startswith('angle-str-') for k in keys):
-        ck.explain('instance:format_float_pipeline_ok_up_to_negative_zero')
-        ck.explain('instance:format_float_places_is_6')
-        ck.explain('instance:format_float_strips_zeros')
+    text = [k for k in keys if k.startswith(('format-float-', 'vec-str-', 'angle-str-')) and not k.endswith('-negative-zero')]
+    if text:
+        for o in ('instance:format_float_pipeline_recognised', 'instance:format_float_pipeline_ok_up_to_negative_zero',
+                  'instance:format_float_places_is_6', 'instance:format_float_strips_zeros', 'instance:str_and_join_use_format_float',
+                  'correspondence:format6'):
+            ck.explain(o)
+        if any(o['name'] == 'instance:format_float_pipeline_recognised' and not o['ok'] for o in ck.obligations):
+            ck.explain('instance:format_float_exact_zero_has_no_sign')     # all flags are off for an unrecognised pipeline
+        if any('format_float' in o['detail'] or '__str__' in o['detail'] or 'join' in o['detail'] or '__repr__' in o['detail']
+               for o in ck.obligations if o['name'].startswith('translate:') and not o['ok']):
+            ck.explain('translate:')       # the translator failed closed on a text method and the search shows the broken output
+    if any(k.endswith('negative-zero-outside-carve-out') for k in keys):
+        ck.explain('instance:format_float_exact_zero_has_no_sign')
         ck.explain('correspondence:format6')
-    if any(k.startswith('frozen-') or k.startswith('non-receiver-') for k in keys):
-        ck.explain('instance:mutation_census_ok_except_known_matmul')
+    if any(k.startswith(('vec-from-str', 'angle-from-str', 'parse-vec-str')) for k in keys):
+        for o in ('instance:parse_vec_str_', 'instance:from_str_', 'correspondence:parse_vec_str'):
+            ck.explain(o)
+    if any(k.startswith(('angle-360-', 'angle-out-of-range', 'angle-slot-missing')) for k in keys):
+        for o in ('instance:all_angle_store_sites_safe', 'instance:no_single_modulo_store', 'instance:no_unclassified_angle_store',
+                  'instance:no_unclassified_angle_creation', 'instance:to_angle_stores_all_slots', 'instance:angle_init_stores_all_slots'):
+            ck.explain(o)
+    if any(k.startswith(('frozen-', 'frozenmatrix-', 'non-receiver-')) for k in keys):
+        ck.explain('instance:mutation_census_ok')
         ck.explain('instance:no_write_through_unknown_or_aliased_object')
         ck.explain('correspondence:frames')
-    if any(k.startswith('angle-out-of-range') for k in keys):
-        ck.explain('instance:all_angle_store_sites_safe')
-        ck.explain('instance:no_unclassified_angle_store')
-        ck.explain('instance:no_single_modulo_store')
+    if any(k.startswith(('copy-is-same-object', 'copy-not-equal', 'source-changed-by')) for k in keys):
+        ck.explain('instance:copy_')
+        ck.explain('correspondence:results')
 
 
 def replay(data: dict) -> int:
